@@ -114,6 +114,44 @@ def gen_config(rng, registry):
     return schemes, handlers, cats, kw
 
 
+def repair(rng, schemes, cats, kw):
+    """turn a generated configuration into a (mostly) valid one: the naive stream is ~60 % constructor errors, which exercises the
+    error paths but leaves the resolution rules thin.  Keeps the shape (which keys are present), fixes the values."""
+    from passlib.context import CryptContext
+
+    kw = dict(kw)
+    gdef = kw.get("default")
+    if gdef is not None and gdef not in schemes:
+        gdef = kw["default"] = rng.choice(schemes)
+    for cat in [None] + cats:
+        pre = f"{cat}__context__" if cat else ""
+        d = kw.get(pre + "default")
+        if d is not None and d not in schemes:
+            d = kw[pre + "default"] = rng.choice(schemes)
+        dep = kw.get(pre + "deprecated")
+        if dep is None:
+            continue
+        if "auto" in dep:
+            kw[pre + "deprecated"] = ["auto"]
+            continue
+        keep = d or gdef
+        dep = [x for x in dep if x != keep]
+        if len(set(dep)) >= len(schemes):
+            dep = dep[:-1] if keep is None else dep
+            dep = [x for x in dep if x != schemes[-1]] if len(set(dep)) >= len(schemes) else dep
+        kw[pre + "deprecated"] = dep
+    for attempt in range(3):
+        try:
+            CryptContext(**kw)
+            return kw
+        except Exception:  # noqa: BLE001
+            if attempt == 0:
+                kw = {k: v for k, v in kw.items() if not k.endswith(("__min_rounds", "__max_rounds"))}
+            elif attempt == 1:
+                kw = {k: v for k, v in kw.items() if "__context__" in k or "__" not in k}
+    return kw
+
+
 def encode(schemes, handlers, kw):
     from passlib.context import CryptContext
 
@@ -200,6 +238,71 @@ def bytes_parity_cases(rng, rounds):
             yield ("bytes-hash-parity", {"op": "bytes-hash", "kwds": kw, "hash": h}, a == b, b, a)
 
 
+#: scheme-specific settings that the scheme's own update rule reads (besides the cost): every admissible value of each
+SCHEME_OPTIONS = {
+    "bcrypt_sha256": [{"version": 1}, {"version": 2}, {"version": 2, "ident": "2b"}, {"version": 1, "ident": "2a"}],
+    "bcrypt": [{"ident": "2a"}, {"ident": "2b"}, {"ident": "2y"}],
+    "scrypt": [{"block_size": 1}, {"block_size": 2}, {"block_size": 8}],
+    "scram": [{"algs": "sha-1"}, {"algs": "sha-1,sha-256"}, {"algs": "sha-1,sha-256,sha-512"}],
+    "bsdi_crypt": [{}], "fshp": [{"variant": 1}, {"variant": 3}],
+    "ldap_bcrypt": [{"ident": "2a"}, {"ident": "2b"}], "django_bcrypt_sha256": [{}], "django_bcrypt": [{}],
+}
+
+
+def scheme_flag_cases(rng, rounds):
+    """the clause `or the scheme itself flags it`, which the model takes as an atom: on the real code, under a context that pins a
+    scheme-specific setting (version, ident, block size, digest list, ...) and optionally a category, a hash the context has just made
+    is not flagged and verify_and_update leaves it alone; a deprecated scheme's hash migrates to the default in one step and stays.
+    yields (tag, input, ok, observed, expected)"""
+    from passlib import registry
+    from passlib.context import CryptContext
+
+    from . import verify_common as vc
+
+    names = [n for n in vc.all_names() if n not in vc.DISABLED and not n.startswith(("django_argon", "argon")) and n not in ("plaintext", "ldap_plaintext", "roundup_plaintext", "htdigest", "phpass")]
+    legacy = registry.get_crypt_handler("phpass")
+    old = legacy.using(rounds=7).hash("pw")
+    for _ in range(rounds):
+        name = rng.choice(names + list(SCHEME_OPTIONS) * 3)
+        h = registry.get_crypt_handler(name)
+        if "user" in (getattr(h, "context_kwds", ()) or ()):
+            continue
+        opts = dict(rng.choice(SCHEME_OPTIONS.get(name, [{}])))
+        cheap = vc.cheap_settings(h, rng)
+        for k in ("rounds", "salt_size"):
+            if k in cheap and k not in opts and (k != "rounds" or name != "bsdi_crypt"):
+                opts[k] = cheap[k]
+        if name == "bsdi_crypt":
+            opts["rounds"] = rng.choice([1, 5, 25, 725])
+        if name == "scrypt":
+            opts.update(rounds=1, parallelism=1)
+        if name in ("bcrypt", "ldap_bcrypt", "django_bcrypt", "bcrypt_sha256", "django_bcrypt_sha256"):
+            opts["rounds"] = 4
+        cat = rng.choice([None, None, "admin"])
+        pre = f"{cat}__" if cat else ""
+        kw = {"schemes": [name, "phpass"] if rng.random() < 0.7 else ["phpass", name], "default": name, "deprecated": ["phpass"]}
+        kw.update({f"{pre}{name}__{k}": v for k, v in opts.items()})
+        inp = {"op": "scheme-flag", "kwds": kw, "category": cat}
+        try:
+            c = CryptContext(**kw)
+        except Exception as e:  # noqa: BLE001
+            yield ("scheme-flag:constructs", inp, False, errname(e) + ": " + str(e)[:100], "an admissible scheme-specific setting is accepted")
+            continue
+        try:
+            with deadline(20):
+                fresh = c.hash("pw", category=cat)
+                obs = (c.identify(fresh), c.needs_update(fresh, category=cat), c.verify_and_update("pw", fresh, category=cat))
+                yield ("scheme-flag:fresh-not-flagged", dict(inp, hash=fresh), obs == (name, False, (True, None)), repr(obs), repr((name, False, (True, None))))
+                ok, new = c.verify_and_update("pw", old, category=cat)
+                obs2 = (ok, None if new is None else c.identify(new), None if new is None else c.needs_update(new, category=cat),
+                        None if new is None else c.verify_and_update("pw", new, category=cat))
+                yield ("scheme-flag:migration-fixed-point", dict(inp, old=old), obs2 == (True, name, False, (True, None)), repr(obs2), repr((True, name, False, (True, None))))
+        except Slow:
+            continue
+        except Exception as e:  # noqa: BLE001
+            yield ("scheme-flag:no-exception", inp, False, errname(e) + ": " + str(e)[:100], "no exception")
+
+
 def correspond(ctx):
     warnings.simplefilter("ignore")
     import passlib.utils.handlers as uh
@@ -209,7 +312,7 @@ def correspond(ctx):
     rng = ctx.rng
     s_cfg = Suite(ctx, "config-resolution")
     s_dec = Suite(ctx, "decisions")
-    n = 500 if not ctx.thorough else 6000
+    n = 700 if not ctx.thorough else 6000
     corpus = {}
     for name in POOL:
         h = registry.get_crypt_handler(name)
@@ -229,6 +332,8 @@ def correspond(ctx):
         corpus[name] = lst
     for _ in range(n):
         schemes, handlers, cats, kw = gen_config(rng, registry)
+        if rng.random() < 0.7:
+            kw = repair(rng, schemes, cats, kw)
         line = "ctx " + encode(schemes, handlers, kw)
         try:
             c = CryptContext(**kw)
@@ -355,10 +460,83 @@ def correspond(ctx):
     o_b = Oracle(ctx, "bytes-hash-parity")
     for tag, inp, ok, obs, exp in bytes_parity_cases(rng, 40 if not ctx.thorough else 600):
         o_b.check(tag, ok, inp, obs, exp)
-    return merge(s_cfg, s_dec, o_b)
+    o_f = Oracle(ctx, "scheme-own-update-rule")
+    for tag, inp, ok, obs, exp in scheme_flag_cases(rng, 120 if not ctx.thorough else 2500):
+        o_f.check(tag, ok, inp, obs, exp)
+    return merge(s_cfg, s_dec, o_b, o_f)
 
 
 # ------------------------------------------------------------------------------------------
+def statement_search(ctx, n=400):
+    """two clauses of the statement evaluated directly on random valid configurations (categories included):
+    attribution = the first configured scheme whose own identify() claims the string; a hash just made for a category is not flagged
+    for that category and is of that category's default scheme, which is not deprecated there"""
+    from passlib import registry
+    from passlib.context import CryptContext
+
+    rng = ctx.rng
+    samples = {}
+    for name in POOL + ["bigcrypt", "crypt16", "lmhash", "nthash", "hex_md5", "hex_md4", "hex_sha1", "mysql41", "cisco_pix", "cisco_asa"]:
+        try:
+            h = registry.get_crypt_handler(name)
+            kw = {"rounds": max(h.min_rounds, 1)} if "rounds" in h.setting_kwds and h.rounds_cost == "log2" else ({"rounds": max(h.min_rounds, 1000)} if "rounds" in h.setting_kwds else {})
+            ck = {"user": "u"} if "user" in (h.context_kwds or ()) else {}
+            samples[name] = h.using(**kw).hash("pw", **ck) if name != "unix_disabled" else "!"
+        except Exception:  # noqa: BLE001
+            pass
+    extra = [s for s in samples if s not in POOL]
+    for _ in range(n):
+        schemes, handlers, cats, kw = gen_config(rng, registry)
+        if rng.random() < 0.5:
+            # overlapping formats side by side, in both orders
+            add = [x for x in rng.sample(extra, 2) if x not in schemes]
+            schemes = list(kw["schemes"]) + add
+            rng.shuffle(schemes)
+            kw["schemes"] = schemes
+            handlers = {s: registry.get_crypt_handler(s) for s in schemes}
+        kw = repair(rng, schemes, cats, kw)
+        try:
+            c = CryptContext(**kw)
+        except Exception:  # noqa: BLE001
+            continue
+        for cat in [None] + cats:
+            for name, hv in samples.items():
+                want = next((s for s in schemes if handlers[s].identify(hv)), None)
+                try:
+                    got = c.identify(hv, category=cat)
+                except Exception as e:  # noqa: BLE001
+                    got = "err " + errname(e)
+                if got != want:
+                    return {"input": {"op": "attribution", "kwds": kw, "category": cat, "hash": hv}, "observed": got, "expected": f"{want} (the first configured scheme that claims it)"}
+            try:
+                d = c.default_scheme(cat)
+                rec = c.handler(d, cat)
+            except Exception:  # noqa: BLE001
+                continue
+            if c._config.is_deprecated_with_flag(d, cat)[0]:
+                return {"input": {"op": "category-default", "kwds": kw, "category": cat}, "observed": f"default scheme {d} is deprecated for the category",
+                        "expected": "the category's default is a scheme that is not deprecated for it"}
+            if "rounds" in rec.setting_kwds and (rec.default_rounds is None or rec.default_rounds > (12 if rec.rounds_cost == "log2" else 20000) or rec.vary_rounds):
+                continue
+            if d == "bsdi_crypt":
+                continue        # recorded finding bsdi-odd-rounds-exceed-even-max
+            try:
+                with deadline(10):
+                    fresh = c.hash("pw", category=cat)
+                    obs = (c.identify(fresh, category=cat), c.needs_update(fresh, category=cat))
+            except Slow:
+                continue
+            except Exception as e:  # noqa: BLE001
+                obs = "err " + errname(e)
+            want_id = next((s for s in schemes if handlers[s].identify(fresh)), None) if isinstance(obs, tuple) else None
+            if want_id != d:
+                continue        # an earlier scheme (a catch-all such as plaintext, or an overlapping format) claims the default's hashes: attribution follows the
+                                # first-claimer rule checked above, and the configuration, not the library, makes the fresh hash look foreign
+            if obs != (want_id, False):
+                return {"input": {"op": "category-fresh", "kwds": kw, "category": cat}, "observed": repr(obs), "expected": repr((want_id, False))}
+    return None
+
+
 def search(ctx, broken, seeds):
     """the property's statement on the real code, for configurations with ordered windows"""
     warnings.simplefilter("ignore")
@@ -369,6 +547,12 @@ def search(ctx, broken, seeds):
     for tag, inp, ok, obs, exp in bytes_parity_cases(rng, 60):
         if not ok:
             return {"input": inp, "observed": obs, "expected": exp, "check": tag}
+    for tag, inp, ok, obs, exp in scheme_flag_cases(rng, 200):
+        if not ok:
+            return {"input": inp, "observed": obs, "expected": exp, "check": tag}
+    r = statement_search(ctx)
+    if r:
+        return r
     fast = ["sha256_crypt", "pbkdf2_sha256", "md5_crypt", "des_crypt", "phpass", "ldap_md5", "sha1_crypt"]
     # cost variation next to a scheme's hard limit: the context must still be able to hash, and must not flag the result
     for s in ("sha256_crypt", "sha512_crypt", "pbkdf2_sha256", "sha1_crypt"):
@@ -504,6 +688,35 @@ def replay(ctx, inp):
             if c.needs_update(h):
                 return {"fails": True, "observed": {"hash": h, "needs_update": True}}
         return {"fails": False, "observed": "200 fresh hashes made and none flagged"}
+    if inp.get("op") in ("attribution", "category-default", "category-fresh"):
+        from passlib import registry
+        from passlib.context import CryptContext
+
+        kw, cat = inp["kwds"], inp.get("category")
+        try:
+            c = CryptContext(**kw)
+            if inp["op"] == "attribution":
+                want = next((s for s in kw["schemes"] if registry.get_crypt_handler(s).identify(inp["hash"])), None)
+                got = c.identify(inp["hash"], category=cat)
+                return {"fails": got != want, "observed": got, "expected": want}
+            d = c.default_scheme(cat)
+            if inp["op"] == "category-default":
+                return {"fails": bool(c._config.is_deprecated_with_flag(d, cat)[0]), "observed": d}
+            fresh = c.hash("pw", category=cat)
+            return {"fails": bool(c.needs_update(fresh, category=cat)), "observed": {"hash": fresh, "needs_update": c.needs_update(fresh, category=cat)}}
+        except Exception as e:  # noqa: BLE001
+            return {"fails": True, "observed": errname(e) + ": " + str(e)}
+    if inp.get("op") == "scheme-flag":
+        from passlib.context import CryptContext
+
+        try:
+            c = CryptContext(**inp["kwds"])
+            cat = inp.get("category")
+            fresh = c.hash("pw", category=cat)
+            obs = (c.needs_update(fresh, category=cat), c.verify_and_update("pw", fresh, category=cat))
+            return {"fails": obs != (False, (True, None)), "observed": {"hash": fresh, "needs_update, verify_and_update": repr(obs)}}
+        except Exception as e:  # noqa: BLE001
+            return {"fails": True, "observed": errname(e) + ": " + str(e)}
     if inp.get("op") == "bytes-hash":
         from passlib.context import CryptContext
 
